@@ -482,13 +482,13 @@ fn mcinstr_w<C: CellType>(text: &str, idx: usize) -> String {
     let mut t = Toks::new(text);
     let p = parse_bc::<C>(&mut t);
     let ex = BaseJitCompiler::<C>::verif_from_bytecode(p);
-    let (code, locs, _term) = ex.verif_compile(false, true);
+    let (code, locs, term) = ex.verif_compile(false, true);
     if idx >= locs.len() {
         return "ERR index".into();
     }
     let a = locs[idx];
     let b = if idx + 1 < locs.len() { locs[idx + 1] } else { code.len() };
-    format!("ok {}", code[a..b].iter().map(|x| format!("{x:02x}")).collect::<String>())
+    format!("ok {} {} {}", code[a..b].iter().map(|x| format!("{x:02x}")).collect::<String>(), a, term)
 }
 
 /// mcinstr|w|idx|bc-text : machine code (hex) the baseline JIT emits for instruction idx of a
